@@ -365,6 +365,7 @@ def campaign(ctx, props):
     camp = EngineCampaign(ctx)
     camp.sentinel()
     rng = ctx.rng
+    targeted(ctx, camp)
     ngraphs = ctx.n(36, 400)
     nsched = ctx.n(5, 12)
     for gi in range(ngraphs):
@@ -403,6 +404,32 @@ def campaign(ctx, props):
     camp.eval_model()
     file_findings(ctx, camp, props)
     return camp
+
+
+def targeted(ctx, camp):
+    """Small fixed shapes that exercise the narrow windows: independent nodes with a worker-killing exception,
+    fan-in with simultaneous predecessors, failure with dependents and max_errors >= 1."""
+    rng = ctx.rng
+    shapes = [
+        ("independent3", [0, 1, 2], []),
+        ("fanin3", [0, 1, 2, 3], [(0, 3, "pos"), (1, 3, "pos"), (2, 3, "dep")]),
+        ("fanin2-parallel", [0, 1, 2], [(0, 2, "pos"), (1, 2, "pos"), (1, 2, "dep")]),
+        ("diamond", [0, 1, 2, 3], [(0, 1, "pos"), (0, 2, "pos"), (1, 3, "pos"), (2, 3, "kw")]),
+        ("chain-fail-mid", [0, 1, 2, 3], [(0, 1, "pos"), (1, 2, "pos"), (2, 3, "pos"), (0, 3, "dep")]),
+    ]
+    for name, nodes, edges in shapes:
+        for workers in (1, 2, 3):
+            for exc_kind, failing, max_errors in (("Exception", [], 0), ("BaseException", [nodes[0]], 0),
+                                                  ("SystemExit", [nodes[0]], 1), ("KeyboardInterrupt", [nodes[1]], None),
+                                                  ("Exception", [nodes[1]], 2), ("Exception", nodes[:2], 1)):
+                for si in range(ctx.n(2, 6)):
+                    chooser = detsched.random_chooser(rng, rng.choice([0.05, 0.3, 0.6])) if si % 2 == 0 else \
+                        detsched.pct_chooser(rng, depth=3, horizon=600)
+                    run, outcome = camp.one(nodes, edges, workers, max_errors, rng.choice(["cheap", "random", "default"]),
+                                            failing, exc_kind, chooser, "targeted:" + name)
+                    ctx.case(("targeted", name, workers, exc_kind, tuple(failing), max_errors, tuple(run.sched.decisions[:200])))
+                    ctx.count("targeted_shape", name)
+                    ctx.count("outcome", outcome[0])
 
 
 def file_findings(ctx, camp, props):
